@@ -72,8 +72,8 @@ func safe(fn opFn, args []string) (res []string) {
 
 type pki struct {
 	rootKey, otherKey *ecdsa.PrivateKey
-	root, other      *x509.Certificate
-	pool             *x509.CertPool
+	root, other       *x509.Certificate
+	pool              *x509.CertPool
 }
 
 var thePKI *pki
@@ -114,6 +114,8 @@ func deviceCert(pub crypto.PublicKey, kind string) *x509.Certificate {
 		parent, signer = p.other, p.otherKey
 	case "expired":
 		tmpl.NotBefore, tmpl.NotAfter = time.Now().Add(-2*time.Hour), time.Now().Add(-time.Hour)
+	case "lapsing": // valid now, expires within about two seconds
+		tmpl.NotAfter = time.Now().Add(2 * time.Second)
 	case "notyet":
 		tmpl.NotBefore, tmpl.NotAfter = time.Now().Add(time.Hour), time.Now().Add(2*time.Hour)
 	case "forgedroot", "forgedrootkey":
@@ -184,12 +186,7 @@ func runAttest(args []string) []string {
 	kind, keyS := args[0], args[4]
 	algo, _ := strconv.Atoi(args[1])
 	tbs, sig := hx.UnHex(args[2]), hx.UnHex(args[3])
-	ck := kind + "|" + keyS
-	f9, ok := certCache[ck]
-	if !ok {
-		f9 = deviceCert(parseKey(keyS), kind)
-		certCache[ck] = f9
-	}
+	f9 := f9For(kind, keyS)
 	att := &x509.Certificate{SignatureAlgorithm: x509.SignatureAlgorithm(algo), RawTBSCertificate: tbs, Signature: sig}
 	// one attestor for the whole run, as in the RA (it is built once from the configured pool):
 	// what it did for earlier pairs must not change its verdict on this one
@@ -203,13 +200,29 @@ func runAttest(args []string) []string {
 	return []string{"accept"}
 }
 
-func oracle(kind, keyS string, tbs []byte) []string {
-	ck := kind + "|" + keyS
+// f9For: the device certificate of a relation kind. "lapsed" is the "lapsing" certificate looked at
+// again after its validity has ended (the call waits for that moment).
+func f9For(kind, keyS string) *x509.Certificate {
+	k := kind
+	if kind == "lapsed" {
+		k = "lapsing"
+	}
+	ck := k + "|" + keyS
 	f9, ok := certCache[ck]
 	if !ok {
-		f9 = deviceCert(parseKey(keyS), kind)
+		f9 = deviceCert(parseKey(keyS), k)
 		certCache[ck] = f9
 	}
+	if kind == "lapsed" {
+		if d := time.Until(f9.NotAfter.Add(1200 * time.Millisecond)); d > 0 {
+			time.Sleep(d)
+		}
+	}
+	return f9
+}
+
+func oracle(kind, keyS string, tbs []byte) []string {
+	f9 := f9For(kind, keyS)
 	_, err := f9.Verify(x509.VerifyOptions{Roots: getPKI().pool})
 	d1 := sha1.Sum(tbs)
 	d2 := sha256.Sum256(tbs)
@@ -307,6 +320,12 @@ func genAttest(g *hx.Gen, out *hx.Out) {
 		// every relation of the device certificate to the pool, with a good signature
 		for _, kind := range []string{"root", "otherca", "selfsigned", "expired", "notyet", "forgedroot"} {
 			emit(kind, 4, tbs, sign(canonEM(k, prefixes1[5], digestOf(5, tbs))), keyS)
+		}
+		// a device certificate that is valid when the attestor first sees it and has expired when it
+		// is presented again (the attestor is long-lived: "at the current time" is the time of the call)
+		if bits == sizes[0] {
+			emit("lapsing", 4, tbs, sign(canonEM(k, prefixes1[5], digestOf(5, tbs))), keyS)
+			emit("lapsed", 4, tbs, sign(canonEM(k, prefixes1[5], digestOf(5, tbs))), keyS)
 		}
 		// after the genuine pair was accepted: the same issuer name and serial over another device
 		// key, under a forged issuer, with a signature that is good under that other key
